@@ -290,10 +290,16 @@ func runCheck(prop, tier string, seed int) int {
 	outDir := filepath.Join(dir, "out", "replay")
 	os.MkdirAll(outDir, 0o755)
 	nviol := 0
+	exOf := map[*vc.OblResult]*vc.Exec{}
+	for _, r := range results {
+		for _, o := range r.res {
+			exOf[o] = r.ex
+		}
+	}
 	report := func(o *vc.OblResult, why string) {
 		nviol++
 		path := filepath.Join(outDir, fmt.Sprintf("%s_%d.json", prop, nviol))
-		rp := buildReplay(w, prop, o, why)
+		rp := buildReplay(w, prop, o, exOf[o], why)
 		data, _ := json.MarshalIndent(rp, "", " ")
 		os.WriteFile(path, data, 0o644)
 		suffix := ""
@@ -422,7 +428,7 @@ type Replay struct {
 	Notes      []string `json:"notes,omitempty"`
 }
 
-func buildReplay(w *world, prop string, o *vc.OblResult, why string) *Replay {
+func buildReplay(w *world, prop string, o *vc.OblResult, ex *vc.Exec, why string) *Replay {
 	rp := &Replay{Property: prop, Obligation: o.O.Name(), Kind: o.O.Kind, Reason: why, Solver: o.Solver}
 	if o.O.Pos.IsValid() {
 		rp.Source = fmt.Sprintf("%s:%d", o.O.Pos.Filename, o.O.Pos.Line)
@@ -435,7 +441,7 @@ func buildReplay(w *world, prop string, o *vc.OblResult, why string) *Replay {
 	if len(o.Script) < 400000 {
 		rp.Script = o.Script
 	}
-	tryReplay(w, o, rp)
+	tryReplay(w, o, ex, rp)
 	return rp
 }
 
